@@ -152,6 +152,7 @@ func vfGateSpecAllowed(gs []vfGateGrant, topic, channel string) bool {
 
 type vfGateSeen struct {
 	TLS, CN, Secret, IP string
+	Method              string
 }
 
 type vfGateStub struct {
@@ -166,7 +167,7 @@ func vfGateNewStub() *vfGateStub {
 	s.srv = httptest.NewUnstartedServer(http.HandlerFunc(func(w http.ResponseWriter, r *http.Request) {
 		r.ParseForm()
 		s.mu.Lock()
-		s.seen = append(s.seen, vfGateSeen{r.Form.Get("tls"), r.Form.Get("common_name"), r.Form.Get("secret"), r.Form.Get("remote_ip")})
+		s.seen = append(s.seen, vfGateSeen{r.Form.Get("tls"), r.Form.Get("common_name"), r.Form.Get("secret"), r.Form.Get("remote_ip"), r.Method})
 		a := s.ans
 		s.mu.Unlock()
 		switch a.Err {
@@ -397,6 +398,50 @@ type vfGateConn struct {
 	deep     bool
 	secret   string
 	identTLS bool
+	tap      *vfGateTap // every byte read off the raw socket (what travels underneath TLS)
+	poisoned bool       // audit A2: the server answered in cleartext underneath TLS; the client gives the connection up
+}
+
+// vfGateTap records what is read off the raw socket.
+type vfGateTap struct {
+	net.Conn
+	mu  sync.Mutex
+	got []byte
+}
+
+func (t *vfGateTap) Read(p []byte) (int, error) {
+	n, err := t.Conn.Read(p)
+	if n > 0 {
+		t.mu.Lock()
+		t.got = append(t.got, p[:n]...)
+		t.mu.Unlock()
+	}
+	return n, err
+}
+
+func (t *vfGateTap) mark() int {
+	t.mu.Lock()
+	defer t.mu.Unlock()
+	return len(t.got)
+}
+
+func (t *vfGateTap) since(m int) []byte {
+	t.mu.Lock()
+	defer t.mu.Unlock()
+	return append([]byte(nil), t.got[m:]...)
+}
+
+// vfGateParseFrame: a complete protocol frame at the start of raw bytes, or nil.
+func vfGateParseFrame(b []byte) *vfGateFrame {
+	if len(b) < 8 {
+		return nil
+	}
+	size := int32(binary.BigEndian.Uint32(b[:4]))
+	typ := int32(binary.BigEndian.Uint32(b[4:8]))
+	if size < 4 || size > 1<<16 || typ < 0 || typ > 2 || len(b) < int(size)+4 {
+		return nil
+	}
+	return &vfGateFrame{typ, append([]byte(nil), b[8:4+size]...)}
 }
 
 func (in *vfGateInst) dial() (*vfGateConn, error) {
@@ -407,7 +452,7 @@ func (in *vfGateInst) dial() (*vfGateConn, error) {
 	if _, err := raw.Write([]byte("  V2")); err != nil {
 		return nil, err
 	}
-	c := &vfGateConn{inst: in, raw: raw, cur: raw, vnow: 1000}
+	c := &vfGateConn{inst: in, raw: raw, cur: raw, vnow: 1000, tap: &vfGateTap{Conn: raw}}
 	in.nextID++
 	c.id = in.nextID
 	me := raw.LocalAddr().String()
@@ -415,7 +460,10 @@ func (in *vfGateInst) dial() (*vfGateConn, error) {
 	for c.client == nil {
 		in.nsqd.tcpServer.conns.Range(func(k, v interface{}) bool {
 			if k.(net.Addr).String() == me {
-				c.client = v.(*clientV2)
+				// (since F23 the bare net.Conn is registered first, the client object once the magic is read)
+				if cl, ok := v.(*clientV2); ok {
+					c.client = cl
+				}
 				return false
 			}
 			return true
@@ -473,6 +521,13 @@ func (c *vfGateConn) readFrame(d time.Duration) (*vfGateFrame, error) {
 	return &vfGateFrame{typ, data}, nil
 }
 
+func vfGateMin(a, b int) int {
+	if a < b {
+		return a
+	}
+	return b
+}
+
 func vfGateIsTimeout(err error) bool {
 	ne, ok := err.(net.Error)
 	return ok && ne.Timeout()
@@ -518,6 +573,8 @@ type vfGateCmd struct {
 	Secret string
 	// IDENTIFY
 	BodyOK, FN, TLSv1, HbOff bool
+	HbOn                     bool // a permitted positive heartbeat_interval (audit B24: re-enables heartbeats)
+	Ob                       int  // output_buffer_size, 0 = absent (audit A2: IDENTIFY again after the TLS upgrade)
 	Cert                     string // nohs | nocert | untrusted | trusted
 	// MPUB
 	Count int
@@ -534,7 +591,15 @@ func (k vfGateCmd) Line() string {
 		if cn, ok := vfGateCN[cert]; ok {
 			cert += ":" + vfGateHexS(cn)
 		}
-		return fmt.Sprintf("IDENTIFY %s %s %s %s %s", vfGateB(k.BodyOK), vfGateB(k.FN), vfGateB(k.TLSv1), vfGateB(k.HbOff), cert)
+		hb := vfGateB(k.HbOff)
+		if k.HbOn {
+			hb = "2"
+		}
+		l := fmt.Sprintf("IDENTIFY %s %s %s %s %s", vfGateB(k.BodyOK), vfGateB(k.FN), vfGateB(k.TLSv1), hb, cert)
+		if k.Ob != 0 {
+			l += fmt.Sprintf(" ob=%d", k.Ob)
+		}
+		return l
 	case "AUTH":
 		return fmt.Sprintf("AUTH %s %d %s", vfGateList(k.Args), k.Size, vfGateHexS(k.Secret))
 	case "PUB", "DPUB":
@@ -555,6 +620,25 @@ func (k vfGateCmd) Line() string {
 		return k.Name
 	}
 	return "UNK " + vfGateHexS(k.Unk)
+}
+
+// identBody builds the IDENTIFY JSON from the op's fields (one place: generator, forced plans, replay).
+func (k *vfGateCmd) identBody() {
+	if !k.BodyOK {
+		k.Body = []byte("{{")
+	} else {
+		m := map[string]interface{}{"client_id": "v", "hostname": "h", "feature_negotiation": k.FN, "tls_v1": k.TLSv1}
+		if k.HbOn {
+			m["heartbeat_interval"] = 60000 // the permitted maximum: no heartbeat frame within a scenario's life
+		} else if k.HbOff {
+			m["heartbeat_interval"] = -1
+		}
+		if k.Ob != 0 {
+			m["output_buffer_size"] = k.Ob
+		}
+		k.Body, _ = json.Marshal(m)
+	}
+	k.Size = len(k.Body)
 }
 
 func (k vfGateCmd) Wire() []byte {
@@ -627,6 +711,7 @@ func (c *vfGateConn) run(k vfGateCmd, ans vfGateAns, last bool) (op string, impl
 		c.client.AuthState.Expires = time.Now().Add(time.Duration(c.expV-c.vnow) * time.Hour)
 	}
 	before := vfGateSnap(in.nsqd)
+	wall0 := time.Now()
 	verb := "c"
 	if last {
 		verb = "cx"
@@ -637,6 +722,7 @@ func (c *vfGateConn) run(k vfGateCmd, ans vfGateAns, last bool) (op string, impl
 	closed := false
 	firstErr := ""
 	c.cur.SetWriteDeadline(time.Now().Add(5 * time.Second))
+	tapMark := c.tap.mark()
 	_, werr := c.cur.Write(k.Wire())
 	if werr != nil {
 		replies = append(replies, "WRITE-ERR")
@@ -671,6 +757,25 @@ func (c *vfGateConn) run(k vfGateCmd, ans vfGateAns, last bool) (op string, impl
 		c.closed = true
 	} else {
 		f, err := c.readFrame(5 * time.Second)
+		if err != nil && !vfGateIsTimeout(err) && c.tlsDone && k.Name == "IDENTIFY" && k.Ob != 0 {
+			// audit A2 (known finding second-identify-cleartext, fix F30): the answer to an IDENTIFY with an
+			// output_buffer_size sent inside TLS arrived underneath it, as a plain frame on the raw socket
+			// (with output_buffer_size -1 the frame leaves in three TCP writes: read the rest off the raw socket)
+			pf := vfGateParseFrame(c.tap.since(tapMark))
+			for dl := time.Now().Add(5 * time.Second); pf == nil && time.Now().Before(dl); pf = vfGateParseFrame(c.tap.since(tapMark)) {
+				var b [256]byte
+				c.raw.SetReadDeadline(time.Now().Add(200 * time.Millisecond))
+				if _, rerr := c.tap.Read(b[:]); rerr != nil && !vfGateIsTimeout(rerr) {
+					break
+				}
+			}
+			if pf != nil {
+				in.out.Fail("second-identify-cleartext", fmt.Sprintf("IDENTIFY with output_buffer_size %d sent inside TLS (tls-required=%d) was answered by a CLEARTEXT frame on the raw socket (%q; the TLS layer says: %v): the output writer was re-created on the raw connection [%s]",
+					k.Ob, in.cfg.DocTLSRequired(), pf.data[:vfGateMin(len(pf.data), 24)], err, op))
+				f, err = pf, nil
+				c.poisoned = true // the line continues as the answer the server did send; the client then gives up
+			}
+		}
 		switch {
 		case err != nil && vfGateIsTimeout(err):
 			replies = append(replies, "TIMEOUT")
@@ -698,7 +803,7 @@ func (c *vfGateConn) run(k vfGateCmd, ans vfGateAns, last bool) (op string, impl
 				if k.Cert == "nohs" {
 					c.cur.Write([]byte("GET / HTTP/1.0\r\n\r\n"))
 				} else {
-					tc := tls.Client(c.raw, c.clientTLSConfig(k.Cert))
+					tc := tls.Client(c.tap, c.clientTLSConfig(k.Cert))
 					tc.SetDeadline(time.Now().Add(5 * time.Second))
 					if err := tc.Handshake(); err == nil {
 						tc.SetDeadline(time.Time{})
@@ -711,6 +816,9 @@ func (c *vfGateConn) run(k vfGateCmd, ans vfGateAns, last bool) (op string, impl
 				}
 				if okTLS {
 					replies = append(replies, "OK")
+					if c.tlsDone {
+						in.out.hist["tls-second-handshake-ok"]++
+					}
 					c.tlsDone = true
 				} else {
 					// the server's complaint is written in plaintext into what the client reads as a TLS
@@ -738,8 +846,32 @@ func (c *vfGateConn) run(k vfGateCmd, ans vfGateAns, last bool) (op string, impl
 		}
 	}
 	after := vfGateSnap(in.nsqd)
+	wall1 := time.Now()
 	seen := in.stub.Seen()
 	impl = c.implLine(replies, closed, seen, after)
+	// audit B11: the expiry the code really stored (the virtual clock above overwrites it before every command, so
+	// without this nothing observes `Expires = now + ttl seconds`), and the parts of the request nobody compared
+	if len(seen) > 0 && ans.Valid() && !closed {
+		if as := c.client.AuthState; as == nil {
+			in.out.Fail("ttl-expiry:"+k.Name, fmt.Sprintf("a valid auth answer (ttl %d) was served but the connection holds no authorization state [%s]", ans.TTL, op))
+		} else {
+			lo, hi := wall0.Add(time.Duration(ans.TTL)*time.Second), wall1.Add(time.Duration(ans.TTL)*time.Second)
+			if as.Expires.Before(lo) || as.Expires.After(hi) {
+				in.out.Fail("ttl-expiry:"+k.Name, fmt.Sprintf("auth answer with ttl %d s obtained between %s and %s is stored as expiring at %s (%.0f s after the query): not query time + ttl [%s]",
+					ans.TTL, wall0.Format("15:04:05.000"), wall1.Format("15:04:05.000"), as.Expires.Format("2006-01-02 15:04:05.000"), as.Expires.Sub(wall0).Seconds(), op))
+			} else {
+				in.out.hist["oracle:ttl-expiry-checked"]++
+			}
+		}
+	}
+	for _, s := range seen {
+		if host, _, err := net.SplitHostPort(c.raw.LocalAddr().String()); err == nil && s.IP != host {
+			in.out.Fail("query-ip:"+k.Name, fmt.Sprintf("auth server was told remote_ip=%q, the client connected from %q [%s]", s.IP, host, op))
+		}
+		if s.Method != "GET" {
+			in.out.Fail("query-method:"+k.Name, fmt.Sprintf("auth server was asked with HTTP method %s, --auth-http-request-method is the default (get) [%s]", s.Method, op))
+		}
+	}
 
 	// ------------------------------------------------ direct oracle (the property on the implementation's own outputs)
 	o := in.out
@@ -916,7 +1048,7 @@ func (c *vfGateConn) runPipelined(k vfGateCmd, behind []vfGateCmd, ans vfGateAns
 		replies = append(replies, fmt.Sprintf("ident:tls=%s:auth=%s", vfGateB(r.TLSv1), vfGateB(r.AuthRequired)))
 		if r.TLSv1 {
 			okTLS := false
-			tc := tls.Client(c.raw, c.clientTLSConfig(k.Cert))
+			tc := tls.Client(c.tap, c.clientTLSConfig(k.Cert))
 			tc.SetDeadline(time.Now().Add(5 * time.Second))
 			if err := tc.Handshake(); err == nil {
 				tc.SetDeadline(time.Time{})
@@ -1150,19 +1282,21 @@ func (in *vfGateInst) identify(c *vfGateConn) vfGateCmd {
 	default:
 		k.Cert = "trusted"
 	}
-	if c.tlsDone {
-		k.Cert = "nohs" // a second handshake is not attempted by this client
+	if c.tlsDone && r.Intn(2) == 0 {
+		// half of the time no second handshake is attempted; otherwise (audit B24) the client handshakes AGAIN, on the
+		// raw socket underneath its first TLS session — that is where the server runs tls.Server(c.Conn)
+		k.Cert = "nohs"
 	}
-	if !k.BodyOK {
-		k.Body = []byte("{{")
-	} else {
-		m := map[string]interface{}{"client_id": "v", "hostname": "h", "feature_negotiation": k.FN, "tls_v1": k.TLSv1}
-		if k.HbOff {
-			m["heartbeat_interval"] = -1
-		}
-		k.Body, _ = json.Marshal(m)
+	if !k.HbOff && r.Intn(6) == 0 {
+		k.HbOn = true // audit B24: a positive interval after `-1` re-enables heartbeats, SUB is accepted again
 	}
-	k.Size = len(k.Body)
+	if c.tlsDone && r.Intn(2) == 0 {
+		// audit A2: IDENTIFY again, with an output_buffer_size, after the TLS upgrade — the answer (and everything
+		// after it) must still come through TLS
+		k.BodyOK, k.FN, k.TLSv1 = true, r.Intn(3) == 0, false
+		k.Ob = []int{-1, 64, 4096}[r.Intn(3)]
+	}
+	k.identBody()
 	return k
 }
 
@@ -1387,12 +1521,11 @@ func (in *vfGateInst) scenario() {
 			if deep {
 				k.HbOff = false
 			}
-			m := map[string]interface{}{"client_id": "v", "hostname": "h", "feature_negotiation": true, "tls_v1": true}
-			if k.HbOff {
-				m["heartbeat_interval"] = -1
+			if deep {
+				k.HbOn = false
 			}
-			k.Body, _ = json.Marshal(m)
-			k.Size = len(k.Body)
+			k.Ob = 0
+			k.identBody()
 		}
 	}
 	if pipe := vfEnvInt("VERIF_GATE_PIPE", 8); in.cfg.Cert && pipe > 0 && r.Intn(pipe) == 0 {
@@ -1437,7 +1570,7 @@ func (in *vfGateInst) scenario() {
 	if deep {
 		steps = 3 + r.Intn(6)
 	}
-	for i := 0; i < len(plan)+steps && !c.closed; i++ {
+	for i := 0; i < len(plan)+steps && !c.closed && !c.poisoned; i++ {
 		var k vfGateCmd
 		if i < len(plan) {
 			k = plan[i]
@@ -1834,21 +1967,18 @@ func (in *vfGateInst) parseCmd(w []string) (vfGateCmd, error) {
 	k := vfGateCmd{Name: w[0]}
 	switch w[0] {
 	case "IDENTIFY":
-		if len(w) != 6 {
+		if len(w) != 6 && len(w) != 7 {
 			return k, bad
 		}
-		k.BodyOK, k.FN, k.TLSv1, k.HbOff = w[1] == "1", w[2] == "1", w[3] == "1", w[4] == "1"
+		k.BodyOK, k.FN, k.TLSv1, k.HbOff, k.HbOn = w[1] == "1", w[2] == "1", w[3] == "1", w[4] == "1", w[4] == "2"
 		k.Cert = strings.SplitN(w[5], ":", 2)[0]
-		if !k.BodyOK {
-			k.Body = []byte("{{")
-		} else {
-			m := map[string]interface{}{"client_id": "v", "hostname": "h", "feature_negotiation": k.FN, "tls_v1": k.TLSv1}
-			if k.HbOff {
-				m["heartbeat_interval"] = -1
+		if len(w) == 7 {
+			if !strings.HasPrefix(w[6], "ob=") {
+				return k, bad
 			}
-			k.Body, _ = json.Marshal(m)
+			k.Ob = atoi(w[6][3:])
 		}
-		k.Size = len(k.Body)
+		k.identBody()
 	case "AUTH":
 		if len(w) != 4 {
 			return k, bad
@@ -2011,7 +2141,7 @@ func TestVerifGateReplay(t *testing.T) {
 				var id int
 				fmt.Sscanf(w[1], "%d", &id)
 				c := conns[id]
-				if c == nil || c.closed {
+				if c == nil || c.closed || c.poisoned {
 					continue
 				}
 				fmt.Sscanf(w[2], "%d", &c.vnow)
@@ -2044,7 +2174,7 @@ func TestVerifGateReplay(t *testing.T) {
 				var id int
 				fmt.Sscanf(w[1], "%d", &id)
 				c := conns[id]
-				if c == nil || c.closed {
+				if c == nil || c.closed || c.poisoned {
 					continue
 				}
 				fmt.Sscanf(w[2], "%d", &c.vnow)
@@ -2062,7 +2192,7 @@ func TestVerifGateReplay(t *testing.T) {
 				var id int
 				fmt.Sscanf(w[1], "%d", &id)
 				c := conns[id]
-				if c == nil || c.closed {
+				if c == nil || c.closed || c.poisoned {
 					continue
 				}
 				c.raw.Close()
